@@ -4,7 +4,8 @@ Model of `mls-rs/src/group/secret_tree.rs`: `SecretKeyRatchet` (`next_message_ke
 consumed `SecretTree` (`consume_node`, `take_leaf_ratchet`, `next_message_key`,
 `message_key_generation`).  Maps (`LargeMap`) are association lists keyed by `Nat`, with replace-on-
 insert; mutation through `&mut self` becomes returning the new value, *including on the error paths*
-(the Rust code mutates before it fails in places, and the model keeps that).
+(the Rust code mutates before it fails in places, and the model keeps that; the one place that was
+repaired — a far-future `message_key_generation` on a leaf without ratchets — returns the tree as is).
 
 Generations are `Nat`; the one `u32` addition that can overflow (`generation + 1024`) is an explicit
 error `overflow` (Rust: debug panic / release wrap).
@@ -153,18 +154,31 @@ def SecretTree.nextMessageKey (P : Prim B) (t : SecretTree B) (index : Nat) (kt 
       let (k, h') := h.next P
       (.ok k, { t' with known := mapInsert t'.known index (.ratchet a h') })
 
-/-- `SecretTree::message_key_generation` -/
+/-- `known_secrets` has an entry at `index` and it is a `SecretTreeNode::Ratchet` (the leaf has been
+started).  A stored `Secret` entry and no entry at all both give `false`. -/
+def SecretTree.hasRatchet (t : SecretTree B) (index : Nat) : Bool :=
+  match mapGet t.known index with
+  | some (.ratchet _ _) => true
+  | _ => false
+
+/-- `SecretTree::message_key_generation` (repaired): a generation beyond `MAX_RATCHET_BACK_HISTORY`
+for a leaf that has no ratchets yet is refused *before* anything is touched (the ratchets that would
+be derived start at generation 0, so the request is out of their window anyway); otherwise as before:
+`take_leaf_ratchet`, ask the ratchet, store the ratchets back. -/
 def SecretTree.messageKeyGeneration (P : Prim B) (t : SecretTree B) (index : Nat) (kt : KeyType) (g : Nat) :
     Except Err (MsgKey B) × SecretTree B :=
-  match t.takeLeafRatchet P index with
-  | (.error e, t') => (.error e, t')
-  | (.ok (a, h), t') =>
-    match kt with
-    | .application =>
-      let (res, a') := a.get P g
-      (res, { t' with known := mapInsert t'.known index (.ratchet a' h) })
-    | .handshake =>
-      let (res, h') := h.get P g
-      (res, { t' with known := mapInsert t'.known index (.ratchet a h') })
+  if g > maxRatchetBackHistory && !t.hasRatchet index then
+    (.error (.invalidFutureGeneration g), t)
+  else
+    match t.takeLeafRatchet P index with
+    | (.error e, t') => (.error e, t')
+    | (.ok (a, h), t') =>
+      match kt with
+      | .application =>
+        let (res, a') := a.get P g
+        (res, { t' with known := mapInsert t'.known index (.ratchet a' h) })
+      | .handshake =>
+        let (res, h') := h.get P g
+        (res, { t' with known := mapInsert t'.known index (.ratchet a h') })
 
 end MlsVerif.ST
